@@ -453,6 +453,12 @@ pub fn generate(kind: &str, thorough: bool, seed: u64, corpus: &str, out: &mut O
                 for j in 0..n { t.push_str(&format!(" fragment F{} on T {{ t {{ {} }} }}", j, if j + 1 < n { format!("...F{}", j + 1) } else { "a".to_string() })); }
                 crate::valcases::termination_case(&si, &t, &tmp, "chain", out);
             }
+            // every way each rule can be violated, as enumerated for C04..C11 (one document in 12; thorough: in 3), all plans
+            crate::valcases::FULL_TERMINATION.store(true, std::sync::atomic::Ordering::Relaxed);
+            crate::valcases::FULL_MODE.store(if thorough { 3 } else { 12 }, std::sync::atomic::Ordering::Relaxed);
+            for k in ["c04", "c05", "c06", "c07", "c08", "c09", "c10", "c11"] { generate(k, false, seed ^ 0x7373, "", out); }
+            crate::valcases::FULL_MODE.store(0, std::sync::atomic::Ordering::Relaxed);
+            crate::valcases::FULL_TERMINATION.store(false, std::sync::atomic::Ordering::Relaxed);
             // (3) arbitrary (mostly invalid) documents over the pool schemas
             for si in pool() {
                 out.schema(&si);
@@ -774,7 +780,14 @@ pub fn generate(kind: &str, thorough: bool, seed: u64, corpus: &str, out: &mut O
             let mut tys: Vec<String> = vec![];
             for b in bases.iter() { for sh in shapes.iter() { tys.push(wrap(b, sh)); } }
             let args = |pre: &str, f: &dyn Fn(usize, &str) -> String| tys.iter().enumerate().map(|(k, t)| format!("{}{}: {}", pre, k, f(k, t))).collect::<Vec<_>>().join(", ");
-            let plain = args("a", &|_, t| t.to_string());
+            let whole_plan = crate::valcases::FULL_MODE.load(std::sync::atomic::Ordering::Relaxed) > 0;
+            fn dflt(t: &str) -> String {
+                let t = t.trim_end_matches('!');
+                if let Some(inner) = t.strip_prefix('[') { return format!("[{}]", dflt(&inner[..inner.len() - 1])); }
+                match t { "Int" => "1".into(), "Float" => "1.5".into(), "String" => "\"s\"".into(), "Boolean" => "true".into(), "ID" => "\"i\"".into(),
+                          "Custom" => "1".into(), "Color" => "RED".into(), _ => "{req: 1}".into() }
+            }
+            let plain = args("a", &|_, t| if whole_plan && t.ends_with('!') { format!("{} = {}", t, dflt(t)) } else { t.to_string() });
             let listed = args("l", &|_, t| format!("[{}]", t));
             let boxed = args("box", &|k, _| format!("Box{}", k));
             let boxes = tys.iter().enumerate().map(|(k, t)| format!("input Box{} {{ v: {} }}", k, t)).collect::<Vec<_>>().join("\n");
